@@ -1,6 +1,7 @@
 package rules
 
 import (
+	"go/token"
 	"strings"
 
 	. "abverif/internal/engine"
@@ -168,7 +169,49 @@ func (c *Ctx) hijackHandlerShape(h *ssa.Function) {
 // interrupted, and aborts on error.
 func (c *Ctx) eventsCallShape() {
 	r := c.R
-	fn := c.P.Func("(*ab.Events).call")
+	// the dispatcher is whichever repository function FireBefore/FireAfter run
+	// the registered handlers in (themselves, or a helper they call)
+	isHandlerCall := func(call ssa.CallInstruction) bool {
+		if Callee(call) != "" {
+			return false
+		}
+		sig := call.Common().Signature()
+		return sig.Params().Len() == 3 && sig.Results().Len() == 2 && IsErrorType(sig.Results().At(1).Type()) && strings.HasSuffix(sig.Params().At(1).Type().String(), "net/http.Request")
+	}
+	var dispatchers []*ssa.Function
+	seenD := map[*ssa.Function]bool{}
+	for _, entry := range []string{"(*ab.Events).FireBefore", "(*ab.Events).FireAfter"} {
+		found := false
+		var visit func(f *ssa.Function, d int)
+		visit = func(f *ssa.Function, d int) {
+			if d > 3 {
+				return
+			}
+			for _, call := range Calls(f) {
+				if isHandlerCall(call) {
+					found = true
+					if !seenD[f] {
+						seenD[f] = true
+						dispatchers = append(dispatchers, f)
+					}
+				}
+				if g := StaticCallee(call); g != nil && c.inRepo(g) && g != f {
+					visit(g, d+1)
+				}
+			}
+		}
+		visit(c.P.Func(entry), 0)
+		if !found {
+			r.Bad("C02.events-call", entry, "handler invocation", "-", "no invocation of the registered handlers found below "+entry)
+		}
+	}
+	for _, fn := range dispatchers {
+		c.dispatchShape(fn, isHandlerCall)
+	}
+}
+
+func (c *Ctx) dispatchShape(fn *ssa.Function, isHandlerCall func(ssa.CallInstruction) bool) {
+	r := c.R
 	name := FuncName(fn)
 	okShape := true
 	detail := ""
@@ -183,39 +226,52 @@ func (c *Ctx) eventsCallShape() {
 			if c.isErrorExit(ret) {
 				continue
 			}
-			// handled result must be a phi over {false, true}
+			// handled result: an accumulation of constants and handler interrupt results
+			seen := map[ssa.Value]bool{}
 			var check func(v ssa.Value, d int) bool
 			check = func(v ssa.Value, d int) bool {
-				if d > 4 {
+				if d > 6 {
 					return false
 				}
+				if seen[v] {
+					return true
+				}
+				seen[v] = true
 				if _, ok := ConstBool(v); ok {
 					return true
 				}
 				if phi, ok := v.(*ssa.Phi); ok {
 					for _, e := range phi.Edges {
-						if e == phi {
-							continue
-						}
 						if !check(e, d+1) {
 							return false
 						}
 					}
 					return true
 				}
+				if bo, ok := v.(*ssa.BinOp); ok && (bo.Op == token.OR || bo.Op == token.LOR) {
+					return check(bo.X, d+1) && check(bo.Y, d+1)
+				}
+				if call, idx := CallOf(v); call != nil && idx == 0 {
+					if ci, ok := call.(ssa.CallInstruction); ok && isHandlerCall(ci) {
+						return true
+					}
+					// a nested dispatcher's own verdict
+					if g := StaticCallee(call); g != nil && c.inRepo(g) {
+						return true
+					}
+				}
 				return false
 			}
 			if !check(ret.Results[0], 0) {
 				okShape = false
-				detail = "handled result is not an accumulation of constants: " + ret.Results[0].String()
+				detail = "handled result is not an accumulation of constants and handler verdicts: " + SafeString(ret.Results[0])
 			}
-			// a constant-true assignment must be control dependent on the handler's interrupt result
 		}
 	}
 	// every dynamic handler call's error is tested
 	ncall := 0
 	for _, call := range Calls(fn) {
-		if Callee(call) != "" {
+		if !isHandlerCall(call) {
 			continue
 		}
 		ncall++
